@@ -1,0 +1,21 @@
+//go:build !verif
+
+package app
+
+import (
+	"time"
+
+	"github.com/f1bonacc1/process-compose/src/command"
+)
+
+// Verification seams (see verif_on.go). With the verif build tag off they are no-ops.
+
+func verifCommander(p *Process) command.Commander { return nil }
+
+func verifYieldP(p *Process, label string) {}
+
+func verifYieldR(label string) {}
+
+func verifStateChange(p *Process, state string) {}
+
+func verifBackoffOverride(seconds int) (time.Duration, bool) { return 0, false }
